@@ -93,7 +93,7 @@ type c04rPlan struct {
 }
 
 // Kind of the compound
-var c04rKinds = []string{"cib", "cib-val", "cib-ptrs", "cib-array", "cib-maps", "cib-subs", "batchsize-create", "explicit", "hook-cib", "hook-batchsize-create"}
+var c04rKinds = []string{"cib", "cib-val", "cib-ptrs", "cib-array", "cib-maps", "cib-subs", "batchsize-create", "explicit", "hook-cib", "hook-batchsize-create", "fib-cib", "fib-batchsize-create"}
 
 // Mode: what fails; At: in which batch
 var c04rModes = []string{"none", "dup-pk", "dup-code", "hook-before", "hook-after", "sub-dup", "inject"}
@@ -206,7 +206,12 @@ func (c *c04rCase) compound() func(h *gorm.DB) error {
 	if strings.HasPrefix(kind, "hook-") {
 		kind = strings.TrimPrefix(kind, "hook-")
 	}
-	return func(h *gorm.DB) error {
+	fib := strings.HasPrefix(kind, "fib-")
+	if fib {
+		kind = strings.TrimPrefix(kind, "fib-")
+	}
+	var inner func(h *gorm.DB) error
+	inner = func(h *gorm.DB) error {
 		switch c.CH {
 		case "Model()":
 			h = h.Model(&C04rItem{})
@@ -261,6 +266,20 @@ func (c *c04rCase) compound() func(h *gorm.DB) error {
 			})
 		}
 		panic("c04r: unknown kind " + c.Kind)
+	}
+	if !fib {
+		return inner
+	}
+	// the compound issued by the SECOND callback run of a FindInBatches over the two initial items, through a fresh session of
+	// the callback's handle; the callback returns its error, FindInBatches stops and reports it
+	return func(h *gorm.DB) error {
+		var page []C04rItem
+		return h.Model(&C04rItem{}).Where("id <= ?", 2).FindInBatches(&page, 1, func(t *gorm.DB, batch int) error {
+			if batch != 2 {
+				return nil
+			}
+			return inner(t.Session(&gorm.Session{NewDB: true}))
+		}).Error
 	}
 }
 
@@ -729,7 +748,7 @@ func (s *c04rSuite) encode(c *c04rCase, o *c04rObs) (outer []interface{}, items 
 		outer = []interface{}{"blk", 0, 77}
 	case "blk-err":
 		outer = []interface{}{"blk", 1, 77}
-	case "man":
+	case "man", "sp":
 		outer = []interface{}{"man", 0}
 	default:
 		return nil, nil, false
@@ -765,7 +784,10 @@ func (s *c04rSuite) encode(c *c04rCase, o *c04rObs) (outer []interface{}, items 
 		}
 		batches = append(batches, []interface{}{[]interface{}{c04fW(c04fCE, ids...).enc()}, wrap})
 	}
-	items = []interface{}{[]interface{}{"ops", ops(c.Pre)}}
+	if c.Site == "sp" { // Begin; item-pre; SavePoint("s1"); …; Commit — the compound's own save point nests inside the user's
+		items = []interface{}{[]interface{}{"ops", ops([]string{"item-pre"})}, []interface{}{"sp", 1}}
+	}
+	items = append(items, []interface{}{"ops", ops(c.Pre)})
 	if wrap {
 		items = append(items, []interface{}{"nested", batches, 0, 78})
 	} else {
